@@ -74,6 +74,8 @@ func c32(c *engine.Ctx) {
 	if p == nil {
 		return
 	}
+	hhUse(p)
+	hhSetStops()
 	hdr := p.Named("tm2/pkg/bft/types.Header")
 	var hdrFields []string
 	if hdr == nil {
@@ -174,74 +176,99 @@ func c32(c *engine.Ctx) {
 		recv := hhRecv(vb)
 		block := paramObj(vb, 0)
 		names := map[types.Object]string{recv: "state", block: "block"}
-		g := vb.Graph()
-		vcs := vb.CallsTo("tm2/pkg/bft/types.(*ValidatorSet).VerifyCommit")
+		vcs := hhDeepCalls(vb, "tm2/pkg/bft/types.(*ValidatorSet).VerifyCommit")
 		c.Floor("last-commit-verified", len(vcs), 1)
-		for _, s := range vcs {
-			rx := ast.Unparen(s.Call.Fun).(*ast.SelectorExpr).X
+		for _, vd := range vcs {
+			vd := vd
+			s := vd.Outer
+			mp := hhDeepMap(vd)
+			rx := mp(ast.Unparen(vd.Inner.Call.Fun).(*ast.SelectorExpr).X)
 			var args []string
-			for _, a := range s.Call.Args {
-				args = append(args, hhNorm(vb, a, names, 2))
+			for _, a := range vd.Inner.Call.Args {
+				args = append(args, hhNorm(vb, mp(a), names, 2))
 			}
 			sig := hhNorm(vb, rx, names, 2) + ".VerifyCommit(" + strings.Join(args, ", ") + ")"
 			want := "state.LastValidators.VerifyCommit(state.ChainID, state.LastBlockID, block.Height - 1, block.LastCommit)"
 			c.Check("last-commit-verified", vb.Name+" VerifyCommit arguments", s.Pos(), sig == want, "got `"+sig+"`, want `"+want+"`")
-			// its error is returned
-			okRet := false
-			for _, rb := range g.ReturnBlocks() {
-				ret := rb.Return()
-				if len(ret.Results) != 1 || isNil(ret.Results[0]) {
-					continue
-				}
-				rs := vb.SiteOf(ret)
-				if rs == nil {
-					continue
-				}
-				if ok, _ := hhErrGuardInv(vb, s, rs); ok {
-					if rv := hhResultVars(vb, s); len(rv) == 1 && engine.ObjOf(info, ret.Results[0]) == rv[0] {
-						okRet = true
-					}
+			levels := hhLevels(vb, vd)
+			// its error is returned (at every level of the helper chain)
+			okRet := true
+			for _, lv := range levels {
+				if !hhErrReturned(lv.Fn, lv.Site) {
+					okRet = false
 				}
 			}
 			c.Check("last-commit-verified", vb.Name+" VerifyCommit error returned", s.Pos(), okRet, "a non-nil VerifyCommit error must be returned")
 			// gates of the call: only `!isGenesisBlock`, isGenesisBlock := block.Height == state.InitialHeight
-			gates := hhFacts(vb, s)
 			var extra []string
 			var genesisGate *engine.Gate
-			gs := g.Gates(s)
-			for i := range gs {
-				gt := gs[i]
-				if !hhIsBool(info, gt.Cond) {
-					continue
+			var genesisFn *engine.Fn
+			for li, lv := range levels {
+				gs := lv.Fn.Graph().Gates(lv.Site)
+				for i := range gs {
+					gt := gs[i]
+					if !hhIsBool(info, gt.Cond) {
+						continue
+					}
+					toVB := func(e ast.Expr) ast.Expr { return e }
+					if li > 0 {
+						// condition of a helper: rewrite into ValidateBlock's terms
+						sub := engine.DeepSite{Outer: vd.Outer, Inner: lv.Site, Chain: vd.Chain[:li]}
+						toVB = hhDeepMap(sub)
+					}
+					cond := toVB(gt.Cond)
+					var fs []hhFact
+					hhSplit(gt.Cond, gt.OnTrue, &fs)
+					if len(fs) == 1 {
+						fs[0].E = hhResolve(vb, toVB(hhResolve(lv.Fn, fs[0].E)))
+						var fs2 []hhFact
+						hhSplit(fs[0].E, fs[0].True, &fs2)
+						if len(fs2) == 1 {
+							fs = fs2
+						}
+						if x, op, y, isCmp := hhCmp(fs[0]); isCmp && op == token.NEQ {
+							n1 := hhNorm(vb, x, names, 2) + " == " + hhNorm(vb, y, names, 2)
+							n2 := hhNorm(vb, y, names, 2) + " == " + hhNorm(vb, x, names, 2)
+							if n1 == "block.Height == state.InitialHeight" || n2 == "block.Height == state.InitialHeight" {
+								genesisGate, genesisFn = &gs[i], lv.Fn
+								continue
+							}
+						}
+					}
+					// gates that merely passed earlier validation (error returns) are fine: the
+					// other branch must leave the function with a non-nil error
+					if c32OtherBranchErrs(lv.Fn, gt) {
+						continue
+					}
+					extra = append(extra, hhNorm(vb, cond, names, 2))
 				}
-				n := hhNorm(vb, gt.Cond, names, 2)
-				if n == "block.Height == state.InitialHeight" && !gt.OnTrue {
-					genesisGate = &gs[i]
-					continue
-				}
-				// gates that merely passed earlier validation (error returns) are fine: the
-				// other branch must leave the function with a non-nil error
-				if c32OtherBranchErrs(vb, gt) {
-					continue
-				}
-				extra = append(extra, n)
 			}
-			_ = gates
 			c.Check("last-commit-verified", vb.Name+" VerifyCommit skipped only for the genesis block", s.Pos(), genesisGate != nil && len(extra) == 0,
 				"VerifyCommit must be conditional only on !(block.Height == state.InitialHeight); other conditions: "+join(extra))
 			// every `return nil` passes VerifyCommit unless the genesis branch was taken
 			if genesisGate != nil {
 				n := 0
-				for _, rb := range g.ReturnBlocks() {
-					ret := rb.Return()
-					if len(ret.Results) != 1 || !isNil(ret.Results[0]) {
-						continue
+				for _, lv := range levels {
+					g := lv.Fn.Graph()
+					for _, rb := range g.ReturnBlocks() {
+						ret := rb.Return()
+						if len(ret.Results) == 0 || !isNil(ret.Results[len(ret.Results)-1]) {
+							continue
+						}
+						n++
+						rs := lv.Fn.SiteOf(ret)
+						avoid := map[*cfg.Block]bool{lv.Site.Block: true}
+						if lv.Fn == genesisFn {
+							// the branch of the gate that does NOT lead to VerifyCommit is the genesis branch
+							gb := genesisGate.Block.Succs[0]
+							if genesisGate.OnTrue {
+								gb = genesisGate.Block.Succs[1]
+							}
+							avoid[gb] = true
+						}
+						ok := rs != nil && !g.Reach(g.CFG.Blocks[0], rs.Block, avoid)
+						c.Check("last-commit-verified", lv.Fn.Name+" success return passes VerifyCommit", ret.Pos(), ok, "a path reaches `return nil` without VerifyCommit and without being the genesis block")
 					}
-					n++
-					rs := vb.SiteOf(ret)
-					avoid := map[*cfg.Block]bool{s.Block: true, genesisGate.Block.Succs[0]: true}
-					ok := rs != nil && !g.Reach(g.CFG.Blocks[0], rs.Block, avoid)
-					c.Check("last-commit-verified", vb.Name+" success return passes VerifyCommit", ret.Pos(), ok, "a path reaches `return nil` without VerifyCommit and without being the genesis block")
 				}
 				c.Floor("last-commit-verified success returns", n, 1)
 			}
@@ -252,16 +279,18 @@ func c32(c *engine.Ctx) {
 	if f := c.MustFunc("tm2/pkg/bft/state.(*BlockExecutor).ApplyBlock"); f != nil {
 		info := f.Info()
 		st, blk := paramObj(f, 0), paramObj(f, 2)
-		ex := f.CallsTo("tm2/pkg/bft/state.execBlockOnProxyApp")
+		ex := hhDeepCalls(f, "tm2/pkg/bft/state.execBlockOnProxyApp")
 		c.Floor("validate-before-exec ApplyBlock", len(ex), 1)
-		for _, s := range ex {
+		for _, ed := range ex {
+			ed := ed
+			s := ed.Outer
 			ok, why := false, "no ValidateBlock(block) on the state/block being executed"
-			if engine.ObjOf(info, hhArg(s.Call, 2)) != blk || engine.ObjOf(info, hhArg(s.Call, 3)) != st {
+			if engine.ObjOf(info, hhDeepArg(ed, 2)) != blk || engine.ObjOf(info, hhDeepArg(ed, 3)) != st {
 				why = "execBlockOnProxyApp does not execute ApplyBlock's own (block, state) parameters"
 			} else {
-				for _, v := range f.CallsTo("tm2/pkg/bft/state.(State).ValidateBlock") {
-					rx := ast.Unparen(v.Call.Fun).(*ast.SelectorExpr).X
-					if engine.ObjOf(info, rx) != st || engine.ObjOf(info, hhArg(v.Call, 0)) != blk {
+				for _, vd := range hhDeepCalls(f, "tm2/pkg/bft/state.(State).ValidateBlock") {
+					rx := hhDeepRecv(vd)
+					if engine.ObjOf(info, rx) != st || engine.ObjOf(info, hhDeepArg(vd, 0)) != blk {
 						continue
 					}
 					if len(hhAssignsTo(f, blk)) != 0 {
@@ -279,7 +308,7 @@ func c32(c *engine.Ctx) {
 						why = "state reassigned between validation and execution"
 						continue
 					}
-					if ok, why = hhErrGuard(f, v, s); ok {
+					if ok, why = hhDeepMustSucceed(f, vd, s); ok {
 						break
 					}
 				}
@@ -297,7 +326,7 @@ func c32(c *engine.Ctx) {
 		{"tm2/pkg/bft/abci/client.(Client).DeliverTxAsync", []string{"tm2/pkg/bft/state.execBlockOnProxyApp"}},
 		{"tm2/pkg/bft/appconn.(Consensus).DeliverTxAsync", []string{"tm2/pkg/bft/state.execBlockOnProxyApp"}},
 	} {
-		callers := engine.CallerSet(p.RefsToFunc(w.fn))
+		callers := hhLiftCallers(p, engine.CallerSet(p.RefsToFunc(w.fn)), w.allowed)
 		extra := hhExtra(callers, w.allowed)
 		if strings.Contains(w.fn, "DeliverTxAsync") {
 			// interface may be declared on either type; only one of the two rows matches
@@ -307,28 +336,33 @@ func c32(c *engine.Ctx) {
 		}
 		c.Check("validate-before-exec", "callers of "+w.fn, token.NoPos, len(extra) == 0 && len(callers) > 0, "callers: "+join(callers))
 	}
-	if f := c.MustFunc("tm2/pkg/bft/blockchain.(*BlockchainReactor).poolRoutine"); f != nil {
+	if f0 := c.MustFunc("tm2/pkg/bft/blockchain.(*BlockchainReactor).poolRoutine"); f0 != nil {
+		// if verification and application moved together into one helper, analyse that helper
+		f := hhDescend(f0, []string{"tm2/pkg/bft/types.(*ValidatorSet).VerifyCommit"}, []string{"tm2/pkg/bft/state.(*BlockExecutor).ApplyBlock"}, []string{".SaveBlock"})
 		info := f.Info()
-		vcs := f.CallsTo("tm2/pkg/bft/types.(*ValidatorSet).VerifyCommit")
+		vcs := hhDeepCalls(f, "tm2/pkg/bft/types.(*ValidatorSet).VerifyCommit")
 		n := 0
 		for _, pat := range []string{"tm2/pkg/bft/state.(*BlockExecutor).ApplyBlock", ".SaveBlock"} {
-			for _, s := range f.CallsTo(pat) {
+			for _, sd := range hhDeepCalls(f, pat) {
+				sd := sd
+				s := sd.Outer
 				n++
 				barg := 0
 				if strings.HasSuffix(pat, "ApplyBlock") {
 					barg = 2
 				}
-				first := engine.ObjOf(info, hhArg(s.Call, barg))
+				first := engine.ObjOf(info, hhDeepArg(sd, barg))
 				ok, why := false, "no VerifyCommit guard"
 				for _, v := range vcs {
-					if g, w := hhErrGuard(f, v, s); !g {
+					v := v
+					if g, w := hhDeepErrGuard(f, v, s); !g {
 						why = "VerifyCommit does not gate: " + w
 						continue
 					}
 					names := map[types.Object]string{first: "first"}
-					a1 := hhNorm(f, hhArg(v.Call, 1), names, 3)
-					a2 := hhNorm(f, hhArg(v.Call, 2), names, 1)
-					sec, sf, isCh := hhChain(info, hhArg(v.Call, 3))
+					a1 := hhNorm(f, hhDeepArg(v, 1), names, 3)
+					a2 := hhNorm(f, hhDeepArg(v, 2), names, 1)
+					sec, sf, isCh := hhChain(info, hhDeepArg(v, 3))
 					switch {
 					case first == nil:
 						why = "block argument is not a variable"
@@ -343,33 +377,34 @@ func c32(c *engine.Ctx) {
 					}
 					if ok {
 						// verified against the same state that ApplyBlock receives
-						rx := ast.Unparen(v.Call.Fun).(*ast.SelectorExpr).X
+						rx := hhDeepRecv(v)
 						if r, fs, isC := hhChain(info, rx); !isC || len(fs) != 1 || fs[0] != "Validators" {
 							ok, why = false, "VerifyCommit must be called on state.Validators"
-						} else if barg == 2 && engine.ObjOf(info, hhArg(s.Call, 0)) != r {
+						} else if barg == 2 && engine.ObjOf(info, hhDeepArg(sd, 0)) != r {
 							ok, why = false, "ApplyBlock receives a different state than the one whose validators verified the commit"
 						}
 						break
 					}
 				}
-				c.Check("validate-before-exec", f.Name+" -> "+s.CalleeName(), s.Pos(), ok, why)
+				c.Check("validate-before-exec", f0.Name+" -> "+sd.Inner.CalleeName(), s.Pos(), ok, why)
 			}
 		}
 		c.Floor("validate-before-exec poolRoutine", n, 2)
 	}
 	if f := c.MustFunc("tm2/pkg/bft/blockchain.(*BlockchainReactor).Receive"); f != nil {
-		adds := f.CallsTo("tm2/pkg/bft/blockchain.(*BlockPool).AddBlock")
+		adds := hhDeepCalls(f, "tm2/pkg/bft/blockchain.(*BlockPool).AddBlock")
 		c.Floor("validate-before-exec Receive", len(adds), 1)
-		for _, s := range adds {
+		for _, ad := range adds {
+			s := ad.Outer
 			ok, why := false, "no msg.ValidateBasic() guard"
-			for _, v := range f.CallsTo("tm2/pkg/bft/blockchain.(BlockchainMessage).ValidateBasic") {
-				if ok, why = hhErrGuard(f, v, s); ok {
+			for _, v := range hhDeepCalls(f, "tm2/pkg/bft/blockchain.(BlockchainMessage).ValidateBasic") {
+				if ok, why = hhDeepErrGuard(f, v, s); ok {
 					break
 				}
 			}
 			c.Check("validate-before-exec", f.Name+" -> BlockPool.AddBlock", s.Pos(), ok, why)
 		}
-		callers := engine.CallerSet(p.RefsToFunc("tm2/pkg/bft/blockchain.(*BlockPool).AddBlock"))
+		callers := hhLiftCallers(p, engine.CallerSet(p.RefsToFunc("tm2/pkg/bft/blockchain.(*BlockPool).AddBlock")), []string{f.Name})
 		c.Check("validate-before-exec", "callers of BlockPool.AddBlock", token.NoPos, len(hhExtra(callers, []string{f.Name})) == 0 && len(callers) == 1, "callers: "+join(callers))
 	}
 	if f := c.MustFunc("tm2/pkg/bft/blockchain.(*bcBlockResponseMessage).ValidateBasic"); f != nil {
@@ -509,7 +544,8 @@ func c32(c *engine.Ctx) {
 				case *ast.SelectorExpr:
 					if ix, ok := ast.Unparen(x.X).(*ast.IndexExpr); ok && isSigSlice(ix.X) {
 						nElem++
-						c.Check("elem-nil", f.Name+" direct "+hhRender(x), x.Pos(), false, "element of []*CommitSig dereferenced without binding and nil test")
+						okc, whyc := c32ElemViaCallers(p, f, ix.X, ix.Index)
+						c.Check("elem-nil", f.Name+" direct "+hhRender(x), x.Pos(), okc, "element of []*CommitSig dereferenced without binding and nil test; "+whyc)
 					}
 				}
 			})
@@ -536,6 +572,14 @@ func c32(c *engine.Ctx) {
 					}
 				}
 			}
+			if !ok {
+				// a helper whose callers establish the fact
+				rx := ast.Unparen(s.Call.Fun).(*ast.SelectorExpr).X
+				slice := &ast.SelectorExpr{X: rx, Sel: ast.NewIdent("Precommits")}
+				if okc, _ := c32ElemViaCallersChain(p, f, rx, slice, idxArg); okc {
+					ok, why = true, "every caller passes the index of a non-nil range element"
+				}
+			}
 			c.Check("elem-nil", f.Name+" "+s.CalleeName()[strings.LastIndex(s.CalleeName(), ".")+1:]+"(idx)", s.Pos(), ok, why)
 		}
 	}
@@ -555,33 +599,42 @@ func c32(c *engine.Ctx) {
 		c.Check("ptr-nil", vb.Name+" calls block.ValidateBasic()", vb.Pos(), guard != nil, "stateless validation (nil LastCommit test) must run first")
 		n := 0
 		seen := map[string]bool{}
-		engine.InspectBody(vb, func(x ast.Node) {
-			e, ok := x.(ast.Expr)
+		// uses of block.LastCommit in ValidateBlock and in the helpers it calls
+		uses := vb.DeepFind(2, func(fn *engine.Fn, x ast.Node) bool {
+			e, ok := x.(*ast.SelectorExpr)
 			if !ok {
-				return
+				return false
 			}
+			_, fs, isC := hhChain(fn.Info(), e)
+			return isC && len(fs) >= 1 && fs[0] == "LastCommit"
+		})
+		for _, d := range uses {
+			if hhChainStopped(d) {
+				continue
+			}
+			e := hhDeepMap(d)(d.Inner.Node.(ast.Expr))
 			r, fs, isC := hhChain(info, e)
 			if !isC || r != block || len(fs) == 0 || fs[0] != "LastCommit" {
-				return
-			}
-			if _, isSel := e.(*ast.SelectorExpr); !isSel {
-				return
+				continue
 			}
 			key := vb.Name + " use of block." + strings.Join(fs, ".")
 			if seen[key] && len(fs) == 1 {
-				return
+				continue
 			}
-			s := vb.SiteOf(e)
-			if s == nil || guard == nil {
-				return
+			s := d.Outer
+			if guard == nil || s == guard {
+				continue
+			}
+			if d.Inner != d.Outer && len(d.Chain) > 0 && d.Chain[0].Name == "tm2/pkg/bft/types.(*Block).ValidateBasic" {
+				continue // the guard itself
 			}
 			n++
 			ok2, why := hhErrGuard(vb, guard, s)
 			if !seen[key] || !ok2 {
-				c.Check("ptr-nil", key, e.Pos(), ok2, "block.LastCommit may be nil before Block.ValidateBasic succeeded: "+why)
+				c.Check("ptr-nil", key, d.Inner.Pos(), ok2, "block.LastCommit may be nil before Block.ValidateBasic succeeded: "+why)
 			}
 			seen[key] = true
-		})
+		}
 		c.Floor("ptr-nil ValidateBlock", n, 3)
 
 		// inside Block.ValidateBasic
@@ -645,16 +698,8 @@ func c32Mismatches(f *engine.Fn, block types.Object, names map[types.Object]stri
 		}
 		return "", false
 	}
-	for _, rb := range f.Graph().ReturnBlocks() {
-		ret := rb.Return()
-		if ret == nil || len(ret.Results) != 1 || isNil(ret.Results[0]) {
-			continue
-		}
-		rs := f.SiteOf(ret)
-		if rs == nil {
-			continue
-		}
-		for _, ft := range hhSufficient(f, rs) {
+	for _, ft := range c32ErrConditions(f, 2) {
+		{
 			// x != y
 			if x, op, y, ok := hhCmp(ft); ok && op == token.NEQ {
 				if fl, isF := blockField(x); isF {
@@ -700,6 +745,15 @@ func c32Mismatches(f *engine.Fn, block types.Object, names map[types.Object]stri
 				case "After":
 					add(fl+"/after", hhNorm(f, call.Args[0], names, 2))
 				}
+				continue
+			}
+			if fl, isF := blockField(call.Args[0]); isF && (sel.Sel.Name == "Equals" || sel.Sel.Name == "Equal") {
+				// state.X.Equals(block.F): symmetric
+				k := "equals"
+				if sel.Sel.Name == "Equal" {
+					k = "equal"
+				}
+				add(fl+"/"+k, hhNorm(f, sel.X, names, 2))
 				continue
 			}
 			if sel.Sel.Name == "HasAddress" {
@@ -777,4 +831,133 @@ func c32SizeEqIdiom(f *engine.Fn, s *engine.Site) (bool, string) {
 		return true, ""
 	}
 	return false, "no `Size() == len(...)` fact for the ranged slice"
+}
+
+// c32ErrConditions lists the stand-alone conditions that send f to an exit
+// with a non-nil error (last result), in f's terms: those gating f's own
+// error returns and, for `return err` / `return wrap(err)` where err comes
+// from a same-package helper, the helper's own error conditions rewritten
+// through the call's argument binding.
+func c32ErrConditions(f *engine.Fn, depth int) []hhFact {
+	var out []hhFact
+	info := f.Info()
+	seenCall := map[*ast.CallExpr]bool{}
+	for _, rb := range f.Graph().ReturnBlocks() {
+		ret := rb.Return()
+		if ret == nil || len(ret.Results) == 0 {
+			continue
+		}
+		last := ret.Results[len(ret.Results)-1]
+		if isNil(last) {
+			continue
+		}
+		rs := f.SiteOf(ret)
+		if rs == nil {
+			continue
+		}
+		out = append(out, hhSufficient(f, rs)...)
+		if depth <= 0 {
+			continue
+		}
+		// follow an error obtained from a helper
+		var call *ast.CallExpr
+		for _, gt := range f.Graph().Gates(rs) {
+			var fs []hhFact
+			hhSplit(gt.Cond, gt.OnTrue, &fs)
+			for _, ft := range fs {
+				x, notNil, ok := hhNilCmp(ft.E)
+				if !ok || notNil != ft.True {
+					continue
+				}
+				if c2, isCall := ast.Unparen(x).(*ast.CallExpr); isCall {
+					call = c2
+				} else if id := hhIdent(x); id != nil {
+					call = hhErrSource(f, info.ObjectOf(id), gt.Block)
+				}
+			}
+		}
+		if c2, isCall := ast.Unparen(last).(*ast.CallExpr); isCall && call == nil {
+			call = c2 // return helper(...)
+		}
+		if call == nil || seenCall[call] {
+			continue
+		}
+		seenCall[call] = true
+		h := hhCalleeFn(f, call)
+		if h == nil || h.Obj == nil || h.Obj.Exported() {
+			continue
+		}
+		bind := hhBind(h, call)
+		for _, ft := range c32ErrConditions(h, depth-1) {
+			out = append(out, hhFact{hhIntoCaller(h, bind, ft.E), ft.True})
+		}
+	}
+	return out
+}
+
+// c32ElemViaCallers: h is an unexported helper that uses slice[idx] (both
+// expressed in h's parameters); every caller calls h with idx = the key of an
+// enclosing `range <slice>` whose element is known non-nil at the call.
+func c32ElemViaCallers(p *engine.Prog, h *engine.Fn, slice, idx ast.Expr) (bool, string) {
+	return c32ElemViaCallersChain(p, h, nil, slice, idx)
+}
+
+// commitRecv != nil: the slice is commitRecv.Precommits (synthetic selector).
+func c32ElemViaCallersChain(p *engine.Prog, h *engine.Fn, commitRecv, slice, idx ast.Expr) (bool, string) {
+	if h.Obj == nil || h.Obj.Exported() || h.Decl == nil {
+		return false, "not an unexported helper"
+	}
+	refs := p.RefsToFunc(h.Name)
+	if len(refs) == 0 {
+		return false, "helper has no callers"
+	}
+	for _, r := range refs {
+		if !r.IsCall || r.Fn == nil {
+			return false, "helper used as a value"
+		}
+		cf := r.Fn
+		info := cf.Info()
+		// locate the call expression
+		var call *ast.CallExpr
+		for _, s := range cf.Calls() {
+			if fn, _ := s.Callee.(*types.Func); fn != nil && p.FnOf(fn) == h {
+				if s.Call.Pos() <= r.Ident.Pos() && r.Ident.End() <= s.Call.End() {
+					call = s.Call
+				}
+			}
+		}
+		if call == nil {
+			return false, "call site not located in " + cf.Name
+		}
+		bind := hhBind(h, call)
+		idxC := hhIntoCaller(h, bind, idx)
+		var root types.Object
+		var fields []string
+		if commitRecv != nil {
+			rc := hhIntoCaller(h, bind, commitRecv)
+			r0, f0, ok := hhChain(info, rc)
+			if !ok {
+				return false, "receiver not a chain at " + cf.Name
+			}
+			root, fields = r0, append(f0, "Precommits")
+		} else {
+			r0, f0, ok := hhChain(info, hhIntoCaller(h, bind, slice))
+			if !ok {
+				return false, "slice not a chain at " + cf.Name
+			}
+			root, fields = r0, f0
+		}
+		rs := hhEnclosingRange(cf, call)
+		if rs == nil || rs.Key == nil || rs.Value == nil || engine.ObjOf(info, rs.Key) == nil || engine.ObjOf(info, rs.Key) != engine.ObjOf(info, idxC) {
+			return false, "caller " + cf.Name + " does not pass the key of an enclosing range"
+		}
+		if !hhIsChain(info, rs.X, root, fields...) {
+			return false, "caller " + cf.Name + " ranges over a different slice"
+		}
+		cs := cf.SiteOf(call)
+		if k, nn := hhKnowsNil(info, hhFacts(cf, cs), engine.ObjOf(info, rs.Value)); !(k && nn) {
+			return false, "caller " + cf.Name + " does not test the element for nil"
+		}
+	}
+	return true, "callers establish a non-nil element"
 }
